@@ -26,7 +26,6 @@ inductive Val (α : Type) where
   | item (x : α)
   | list (xs : List α)
   | slice (s : Slice)
-  | selfRef                      -- the list object itself (what `super().__iadd__` returns)
   deriving Repr
 
 /-- Expressions (pure: they read the list and the local variables). -/
@@ -113,9 +112,12 @@ def bindArgs : Nat → List (Val α) → Nat → Option (Val α)
   | _, [] => fun _ => none
   | k, v :: vs => fun j => if j = k then some v else bindArgs (k + 1) vs j
 
-def intOp (f : Int → Int → Val α) : Val α → Val α → Except Exc (Val α)
-  | .int a, .int b => .ok (f a b)
-  | _, _ => .error .other
+/-- A binary operation on two integers (left operand evaluated first). -/
+def intOp (f : Int → Int → Val α) : Except Exc (Val α) → Except Exc (Val α) → Except Exc (Val α)
+  | .ok (.int a), .ok (.int b) => .ok (f a b)
+  | .error e, _ => .error e
+  | .ok _, .error e => .error e
+  | .ok _, .ok _ => .error .other
 
 /-- `stuck` = the program left the subset the interpreter understands (never
 equal to anything the model produces, so an obligation then fails). -/
@@ -175,14 +177,14 @@ def eval (E : Env α) (l : List α) (vars : Nat → Option (Val α)) : Expr → 
     | .ok (.list xs) => .ok (.list xs.reverse)
     | .ok _ => stuck
     | .error e => .error e
-  | .add a b => do intOp (fun x y => .int (x + y)) (← eval E l vars a) (← eval E l vars b)
-  | .sub a b => do intOp (fun x y => .int (x - y)) (← eval E l vars a) (← eval E l vars b)
-  | .mul a b => do intOp (fun x y => .int (x * y)) (← eval E l vars a) (← eval E l vars b)
-  | .mod a b => do intOp (fun x y => .int (pymod x y)) (← eval E l vars a) (← eval E l vars b)
-  | .min a b => do intOp (fun x y => .int (Min.min x y)) (← eval E l vars a) (← eval E l vars b)
-  | .max a b => do intOp (fun x y => .int (Max.max x y)) (← eval E l vars a) (← eval E l vars b)
-  | .lt a b => do intOp (fun x y => .bool (decide (x < y))) (← eval E l vars a) (← eval E l vars b)
-  | .le a b => do intOp (fun x y => .bool (decide (x ≤ y))) (← eval E l vars a) (← eval E l vars b)
+  | .add a b => intOp (fun x y => .int (x + y)) (eval E l vars a) (eval E l vars b)
+  | .sub a b => intOp (fun x y => .int (x - y)) (eval E l vars a) (eval E l vars b)
+  | .mul a b => intOp (fun x y => .int (x * y)) (eval E l vars a) (eval E l vars b)
+  | .mod a b => intOp (fun x y => .int (pymod x y)) (eval E l vars a) (eval E l vars b)
+  | .min a b => intOp (fun x y => .int (Min.min x y)) (eval E l vars a) (eval E l vars b)
+  | .max a b => intOp (fun x y => .int (Max.max x y)) (eval E l vars a) (eval E l vars b)
+  | .lt a b => intOp (fun x y => .bool (decide (x < y))) (eval E l vars a) (eval E l vars b)
+  | .le a b => intOp (fun x y => .bool (decide (x ≤ y))) (eval E l vars a) (eval E l vars b)
   | .eq a b =>
     match eval E l vars a, eval E l vars b with
     | .ok (.int x), .ok (.int y) => .ok (.bool (decide (x = y)))
@@ -260,13 +262,20 @@ def evalAll (E : Env α) (l : List α) (vars : Nat → Option (Val α)) : List E
       | .error x => .error x
       | .ok vs => .ok (v :: vs)
 
+/-- A method call as seen from outside: the contents afterwards, the returned
+item (only `pop` returns one) and the events fired — or the exception, with the
+contents and events at that moment. -/
+inductive Summary (α : Type) where
+  | done (items : List α) (ret : Option α) (events : List (Event α))
+  | raised (e : Exc) (items : List α) (events : List (Event α))
+
 /-- What the interpreter is run with. -/
 structure Ctx (α : Type) where
   E : Env α
   /-- module-level helper functions (pure) -/
   call : String → List (Val α) → Except Exc (List (Val α))
-  /-- `super().m(args)` on the current state -/
-  sup : String → List (Val α) → St α → St α × Flow α
+  /-- `super().m(args)` on the current contents -/
+  sup : String → List (Val α) → List α → Summary α
   /-- `trait.minlen <= n <= trait.maxlen` -/
   lenOk : Int → Bool
 
@@ -338,16 +347,12 @@ def exec (C : Ctx α) : Stmt → St α → St α × Flow α
     match evalAll C.E st.self st.vars args with
     | .error x => (st, .raised x)
     | .ok vs =>
-      match C.sup m vs st with
-      | (st', .raised x) => (st', .raised x)
-      | (st', .returned [v]) =>
-        (match i with
-         | some j => ({ st' with vars := setVar st'.vars j v }, .next)
-         | none => (st', .next))
-      | (st', _) =>
-        (match i with
-         | some j => ({ st' with vars := setVar st'.vars j .none }, .next)
-         | none => (st', .next))
+      match C.sup m vs st.self with
+      | .raised x items evs => ({ st with self := items, events := st.events ++ evs }, .raised x)
+      | .done items ret evs =>
+        let v : Val α := match ret with | some x => .item x | none => .none
+        ({ st with self := items, events := st.events ++ evs,
+                   vars := match i with | some j => setVar st.vars j v | none => st.vars }, .next)
   | .notify a b c, st =>
     match eval C.E st.self st.vars a, eval C.E st.self st.vars b, eval C.E st.self st.vars c with
     | .ok ia, .ok (.list rs), .ok (.list as) =>
@@ -373,7 +378,7 @@ def lookupFn (m : String) : List (String × Func) → Option Func
 /-- A helper has no `self`: it runs on an empty list, cannot call other
 helpers, has no `super()`. -/
 def helperCtx (E : Env α) : Ctx α :=
-  { E := E, call := fun _ _ => stuck, sup := fun _ _ st => (st, .raised .other), lenOk := fun _ => true }
+  { E := E, call := fun _ _ => stuck, sup := fun _ _ l => .raised .other l [], lenOk := fun _ => true }
 
 /-- Call of a module-level helper (pure function of its arguments). -/
 def callHelper (helpers : List (String × Func)) (E : Env α) (f : String) (args : List (Val α)) :
@@ -388,27 +393,26 @@ def callHelper (helpers : List (String × Func)) (E : Env α) (f : String) (args
     | (_, .next) => .ok [.none]
 
 /-- The builtin `list` method `m` (what `super()` is for `TraitList`). -/
-def builtinSup (E : Env α) (m : String) (args : List (Val α)) (st : St α) : St α × Flow α :=
-  let l := st.self
-  let done (l' : List α) (v : Val α) : St α × Flow α := ({ st with self := l' }, .returned [v])
-  let fail (x : Exc) : St α × Flow α := (st, .raised x)
+def builtinSup (E : Env α) (m : String) (args : List (Val α)) (l : List α) : Summary α :=
+  let done (l' : List α) : Summary α := .done l' none []
+  let fail (x : Exc) : Summary α := .raised x l []
   match m, args with
-  | "__delitem__", [.int i] => (match Py.delIdx l i with | .ok l' => done l' .none | .error x => fail x)
-  | "__delitem__", [.slice s] => (match Py.delSlice l s with | .ok l' => done l' .none | .error x => fail x)
-  | "__setitem__", [.int i, .item x] => (match Py.setIdx l i x with | .ok l' => done l' .none | .error e => fail e)
-  | "__setitem__", [.slice s, .list xs] => (match Py.setSlice l s xs with | .ok l' => done l' .none | .error e => fail e)
-  | "__iadd__", [.list xs] => done (l ++ xs) .selfRef
-  | "__imul__", [.int n] => done (Py.imul l n) .selfRef
-  | "append", [.item x] => done (l ++ [x]) .none
-  | "clear", [] => done [] .none
-  | "extend", [.list xs] => done (l ++ xs) .none
-  | "insert", [.int i, .item x] => done (Py.insert l i x) .none
-  | "pop", [.int i] => (match Py.pop l i with | .ok (x, l') => done l' (.item x) | .error e => fail e)
-  | "remove", [.item x] => (match Py.remove E.eq l x with | .ok l' => done l' .none | .error e => fail e)
-  | "reverse", [] => done l.reverse .none
+  | "__delitem__", [.int i] => (match Py.delIdx l i with | .ok l' => done l' | .error x => fail x)
+  | "__delitem__", [.slice s] => (match Py.delSlice l s with | .ok l' => done l' | .error x => fail x)
+  | "__setitem__", [.int i, .item x] => (match Py.setIdx l i x with | .ok l' => done l' | .error e => fail e)
+  | "__setitem__", [.slice s, .list xs] => (match Py.setSlice l s xs with | .ok l' => done l' | .error e => fail e)
+  | "__iadd__", [.list xs] => done (l ++ xs)
+  | "__imul__", [.int n] => done (Py.imul l n)
+  | "append", [.item x] => done (l ++ [x])
+  | "clear", [] => done []
+  | "extend", [.list xs] => done (l ++ xs)
+  | "insert", [.int i, .item x] => done (Py.insert l i x)
+  | "pop", [.int i] => (match Py.pop l i with | .ok (x, l') => .done l' (some x) [] | .error e => fail e)
+  | "remove", [.item x] => (match Py.remove E.eq l x with | .ok l' => done l' | .error e => fail e)
+  | "reverse", [] => done l.reverse
   -- `sort(key=key, reverse=reverse)`: the pair (key, reverse) is the model's sort specification,
   -- carried in the `key` argument
-  | "sort", [.int sp, _] => if sp < 0 then fail .other else done (E.sort sp.toNat l) .none
+  | "sort", [.int sp, _] => if sp < 0 then fail .other else done (E.sort sp.toNat l)
   | _, _ => fail .other
 
 /-- The arguments an `Op` passes to the method it stands for. -/
@@ -428,52 +432,44 @@ def opCall : Op α → String × List (Val α)
   | .reverse => ("reverse", [])
   | .sort sp => ("sort", [.int sp, .none])
 
-/-- A method call as seen from outside. -/
-inductive Summary (α : Type) where
-  | done (items : List α) (ret : Option α) (events : List (Event α))
-  | raised (e : Exc) (items : List α) (events : List (Event α))
-
 def summarize : St α × Flow α → Summary α
   | (st, .raised e) => .raised e st.self st.events
   | (st, .returned [.item x]) => .done st.self (some x) st.events
   | (st, _) => .done st.self none st.events
 
-/-- `TraitList.m(args)`: the translated method if `TraitList` defines it, else the builtin. -/
-def runTraitList (helpers methods : List (String × Func)) (E : Env α) (m : String) (args : List (Val α))
-    (st : St α) : St α × Flow α :=
+/-- `TraitList.m(args)` on contents `l`: the translated method if `TraitList`
+defines it, else the builtin. -/
+def runTraitListM (helpers methods : List (String × Func)) (E : Env α) (m : String) (args : List (Val α))
+    (l : List α) : Summary α :=
   match lookupFn m methods with
-  | none => builtinSup E m args st
+  | none => builtinSup E m args l
   | some fn =>
-    if args.length ≠ fn.nparams then (st, .raised .other) else
+    if args.length ≠ fn.nparams then .raised .other l [] else
     let C : Ctx α := { E := E, call := callHelper helpers E, sup := builtinSup E, lenOk := fun _ => true }
-    match exec C fn.body { st with vars := bindArgs 0 args } with
-    | (st', fl) => ({ st' with vars := st.vars }, fl)
+    summarize (exec C fn.body { self := l, vars := bindArgs 0 args })
 
-/-- What the model's `TraitList.step` result looks like from outside: on an
-exception the list is as it was and nobody was notified. -/
+/-- What the model's `step` result looks like from outside: on an exception the
+list is as it was and nobody was notified. -/
 def summaryOfStep (l : List α) : Except Exc (Out α) → Summary α
   | .ok o => .done o.items o.ret o.event.toList
   | .error e => .raised e l []
 
 def runTraitListOp (helpers methods : List (String × Func)) (E : Env α) (l : List α) (op : Op α) : Summary α :=
-  let (m, args) := opCall op
-  summarize (runTraitList helpers methods E m args { self := l, vars := fun _ => none })
+  runTraitListM helpers methods E (opCall op).1 (opCall op).2 l
 
 /-- `TraitListObject.m(args)`: the translated override (whose `super()` is the
 translated `TraitList` method) if there is one, else `TraitList`'s. -/
-def runTraitListObject (helpers tl tlo : List (String × Func)) (c : LenCfg) (E : Env α) (m : String)
-    (args : List (Val α)) (st : St α) : St α × Flow α :=
+def runTraitListObjectM (helpers tl tlo : List (String × Func)) (c : LenCfg) (E : Env α) (m : String)
+    (args : List (Val α)) (l : List α) : Summary α :=
   match lookupFn m tlo with
-  | none => runTraitList helpers tl E m args st
+  | none => runTraitListM helpers tl E m args l
   | some fn =>
-    if args.length ≠ fn.nparams then (st, .raised .other) else
-    let C : Ctx α := { E := E, call := callHelper helpers E, sup := runTraitList helpers tl E, lenOk := c.ok }
-    match exec C fn.body { st with vars := bindArgs 0 args } with
-    | (st', fl) => ({ st' with vars := st.vars }, fl)
+    if args.length ≠ fn.nparams then .raised .other l [] else
+    let C : Ctx α := { E := E, call := callHelper helpers E, sup := runTraitListM helpers tl E, lenOk := c.ok }
+    summarize (exec C fn.body { self := l, vars := bindArgs 0 args })
 
 def runTraitListObjectOp (helpers tl tlo : List (String × Func)) (c : LenCfg) (E : Env α) (l : List α)
     (op : Op α) : Summary α :=
-  let (m, args) := opCall op
-  summarize (runTraitListObject helpers tl tlo c E m args { self := l, vars := fun _ => none })
+  runTraitListObjectM helpers tl tlo c E (opCall op).1 (opCall op).2 l
 
 end TraitsVerif.Model.PyL
